@@ -291,6 +291,95 @@ func c14RecursivePairs(c *rt.Ctx) {
 	}
 }
 
+type c14Err struct {
+	Code int
+	Msg  string
+}
+
+func (e c14Err) Error() string { return e.Msg }
+
+// c14IfaceMembers: values of many dynamic types held in members, elements and map values whose
+// static type is an interface with methods (the interpreter has to find the dynamic type behind
+// the method table), an empty interface next to them, through all four interpreters and their other
+// entry points. Every dynamic type has member names of its own.
+func c14IfaceMembers(c *rt.Ctx, sub0 int) {
+	type holder struct {
+		S  zoo.Shaper            `json:"s"`
+		E  error                 `json:"e"`
+		I  interface{}           `json:"i"`
+		L  []zoo.Shaper          `json:"l"`
+		M  map[string]zoo.Shaper `json:"m"`
+		A  [2]error              `json:"a"`
+		P  *zoo.Shaper           `json:"p"`
+		Z  int                   `json:"z"`
+		S2 zoo.Shaper            `json:"s2,omitempty"`
+	}
+	hungry := zoo.SlotHungry{S1: []string{"a"}, I1: []int{1, 2}, M: map[string][]int{"k": {1}}, T: "t"}
+	small := zoo.SmallShape{V: 7}
+	var sh zoo.Shaper = &small
+	vals := []any{
+		holder{S: small, E: c14Err{1, "one"}, I: hungry, L: []zoo.Shaper{hungry, small, &small, nil}, M: map[string]zoo.Shaper{"x": small, "y": hungry}, A: [2]error{c14Err{2, "two"}, nil}, P: &sh, Z: 5},
+		holder{S: hungry, E: &c14Err{3, "three"}, I: small, Z: 6, S2: &small},
+		&holder{S: &small, L: []zoo.Shaper{&small}, M: map[string]zoo.Shaper{"only": &small}, Z: 7},
+		[]holder{{S: small, Z: 1}, {E: c14Err{4, "four"}, Z: 2}},
+		map[string]any{"h": holder{S: hungry, Z: 8}, "e": error(c14Err{5, "five"})},
+		struct {
+			X zoo.Shaper
+			Y zoo.Shaper
+		}{small, hungry},
+	}
+	scheme := &gojson.ColorScheme{}
+	entries := []struct {
+		name   string
+		indent bool
+		f      func(x any) ([]byte, error)
+	}{
+		{"Marshal", false, func(x any) ([]byte, error) { return gojson.Marshal(x) }},
+		{"MarshalIndent", true, func(x any) ([]byte, error) { return gojson.MarshalIndent(x, "", " ") }},
+		{"Colorize", false, func(x any) ([]byte, error) { return gojson.MarshalWithOption(x, gojson.Colorize(scheme)) }},
+		{"Colorize+Indent", true, func(x any) ([]byte, error) {
+			return gojson.MarshalIndentWithOption(x, "", " ", gojson.Colorize(scheme))
+		}},
+		{"MarshalNoEscape", false, func(x any) ([]byte, error) { return gojson.MarshalNoEscape(x) }},
+		{"MarshalContext", false, func(x any) ([]byte, error) { return gojson.MarshalContext(context.Background(), x) }},
+		{"Encoder+SetIndent+Colorize", true, func(x any) ([]byte, error) {
+			var w bytes.Buffer
+			enc := gojson.NewEncoder(&w)
+			enc.SetIndent("", " ")
+			err := enc.EncodeWithOption(x, gojson.Colorize(scheme))
+			return bytes.TrimSuffix(w.Bytes(), []byte("\n")), err
+		}},
+	}
+	for i, x := range vals {
+		sub := sub0 + i
+		if !c.Cur(sub, fmt.Sprintf("shapes=core\ninterface-typed members: %T", x)) {
+			continue
+		}
+		for _, e := range entries {
+			var want []byte
+			var serr error
+			if e.indent {
+				want, serr = stdjson.MarshalIndent(x, "", " ")
+			} else {
+				want, serr = stdjson.Marshal(x)
+			}
+			if serr != nil {
+				continue
+			}
+			var got []byte
+			var gerr error
+			pan, msg, _ := rt.Guard(func() { got, gerr = e.f(x) })
+			c.Eval(1)
+			if pan || gerr != nil || string(got) != string(want) {
+				c.Violate(rt.Violation{Monitor: "self-ident", Entry: "interface-member", Kind: "encoded-by-foreign-program", Ctx: e.name,
+					Detail: fmt.Sprintf("%T via %s: got %s (err %v %s) want %s", x, e.name, rt.Q(got), gerr, msg, rt.Q(want)), Sub: sub})
+			}
+		}
+		c.NonTrivial("iface-members", fmt.Sprintf("%T", x))
+	}
+	c.Obs("interface_member_values", int64(len(vals)))
+}
+
 // c14GCHook is the dynamic value of an interface member: while its MarshalJSON runs the
 // interpreter is inside a nested program and remembers the enclosing one as a return address only.
 // It forces a collection and then takes over whatever was freed in the pointer-carrying size
@@ -461,6 +550,7 @@ func init() {
 					rounds = 140
 				}
 				c14Storm(c, 9, rounds)
+				c14IfaceMembers(c, 300000)
 				return
 			}
 			c.Idx--
